@@ -91,8 +91,9 @@ LEVEL_TEXT = ('BufferAsyncCalls is modelled step for step as an executable macro
               'real class under a virtual-time loop on the enumerated / random event lists and comparing every observation with the model '
               'inside Coq (vm_compute); the monitor Case_C03.ok = ok_csets && ok_offered && ok_once && ok_walk re-decides the property on '
               'the implementation trace.  tracker_agrees_on_offers (the monitors\' input tracker agrees with the model after every '
-              'event list); monitor_complete_partial (call-set, only-submitted and exactly-once parts accept the model trace of '
-              'every event list; the walk part — failed set offered again, settled => delivered — is not proved complete); '
+              'event list); monitor_complete (the WHOLE monitor — call-set, only-submitted, exactly-once and the walk part with "failed set '
+              'offered again" and "settled => delivered" — accepts the model trace of every event list: no false alarm where '
+              'implementation and model agree); '
               'callset_monitor_sound and walk_monitor_sound (model-free: acceptance implies the readable statements on the '
               'observed trace and script).')
 LEVEL_NOTE = ('trusted: Coq kernel + vm_compute; no axioms (Print Assumptions: closed under the global context); asyncio primitives are '
